@@ -2,6 +2,9 @@ package main
 
 import (
 	"fmt"
+	"os"
+	"os/exec"
+	"path/filepath"
 	"strings"
 	"sync"
 
@@ -237,6 +240,37 @@ func genC15(g *gen) {
 			for _, l := range priv(id) {
 				got := execOp(hst, l)
 				g.check(got == want[l], "history-free", "a fresh XMSS key behaves differently after other calls: "+trunc(l, 60), append(append([]string{}, perturb...), priv(id)...)...)
+			}
+		}
+	}
+	// history across processes: a fresh process that makes unusual (but accepted) calls FIRST must then give the
+	// same answers as this one (state that is initialised lazily by the first caller shows only this way)
+	g.note("history independence across fresh processes")
+	if exe, err := os.Executable(); err == nil {
+		for variant := 0; variant < 2; variant++ {
+			var script []string
+			if variant == 0 {
+				script = append(script, perturb...)
+			} else {
+				script = append(script, fmt.Sprintf("x.new q %s 4 2 0", hx(seed)), "m.dec48 "+hx([]byte("zzzz")), fmt.Sprintf("x.verify 300 %s %s %s", hx(msg), hx(sig), hx(xpk[:])))
+			}
+			npre := len(script)
+			script = append(script, lines...)
+			for id := 0; id < 3; id++ {
+				script = append(script, priv(id)...)
+			}
+			dir, _ := os.MkdirTemp("", "c15hist")
+			opsFile := filepath.Join(dir, "ops.txt")
+			writeLines(opsFile, script)
+			outb, err := exec.Command(exe, "run", opsFile).Output()
+			os.RemoveAll(dir)
+			got := strings.Split(strings.TrimRight(string(outb), "\n"), "\n")
+			g.check(err == nil && len(got) >= len(script), "history-free-process", fmt.Sprintf("fresh process running the history script failed: %v", err), script...)
+			if err != nil || len(got) < len(script) {
+				continue
+			}
+			for i := npre; i < len(script); i++ {
+				g.check(got[i] == want[script[i]], "history-free-process", "in a fresh process, after unusual first calls, a stateless call / fresh key answers differently: "+trunc(script[i], 60), append(append([]string{}, script[:npre]...), script[i])...)
 			}
 		}
 	}
